@@ -264,6 +264,17 @@ namespace xsv
         if (d.imm == IMM_COUNT)
             for (int i = 0; i < tbits(t); ++i)
                 r.push_back(i);
+        else if (d.imm == IMM_EXP)
+        {
+            for (int64_t v : { 0, 1, 2, 3, 4, 5, 7, 8, 15, 16, 17, 31, 32, 33, 63, 64, 65, 100, 127, 128, 255, 1000, 1023, 1024, 65535, 1 << 20, 0x7fffffff, 0x7ffffffe, 0x55555555 })
+            {
+                r.push_back(v);
+                if (tfloat(t) && v)
+                    r.push_back(-v);
+            }
+            if (tfloat(t))
+                r.push_back(-0x7fffffffLL - 1);
+        }
         else
             r.push_back(0);
         return r;
@@ -322,6 +333,13 @@ namespace xsv
         const int nmax = 64 / eb;
         if (d.imm == IMM_COUNT)
             c.imm = *sized(rc::gen::weightedOneOf<int>({ { 3, rc::gen::inRange<int>(0, tbits(t)) }, { 1, rc::gen::element<int>(0, 1, tbits(t) - 1) } }));
+        if (d.imm == IMM_EXP)
+        {
+            int64_t k = *sized(rc::gen::weightedOneOf<int64_t>({ { 4, rc::gen::inRange<int64_t>(0, 70) }, { 2, rc::gen::inRange<int64_t>(0, 2000) }, { 1, rc::gen::inRange<int64_t>(0, 0x7fffffffLL) } }));
+            if (tfloat(t) && *rc::gen::arbitrary<bool>())
+                k = -k;
+            c.imm = k;
+        }
         std::vector<uint64_t> first;
         for (int i = 0; i < d.arity; ++i)
         {
